@@ -987,7 +987,9 @@ fn classify_ref(leaf: &Leaf, oleaf: Option<&Leaf>, e: &Tok, g: Option<&Tok>, res
                         (Some(Leaf::Ref(o)), None) => rk_parts(&o.k).iter().all(|p| p.abs),
                         _ => false,
                     };
-                    if locked { "ref:not-shifted-locked".to_string() } else { "ref:not-shifted".to_string() }
+                    // the target was deleted, yet the reference is still there, unchanged (distinct from a LIVE
+                    // reference that failed to move: "ref:not-shifted")
+                    if locked { "ref:deleted-target-kept-unchanged-locked".to_string() } else { "ref:deleted-target-kept-unchanged".to_string() }
                 }
                 Some(g) if g.k == K::Run && parse_ref_run(&g.text).is_some() => format!("ref:{}", dead_label),
                 Some(g) if g.k == K::QSheet => format!("ref:{}", dead_label),
